@@ -191,6 +191,16 @@ def rule_hosts(run, F, cfg):
            "builds the filter directly)", site=h.loc(ps[0][0]) if ps else h.loc(0), config=cfg)
     if ps:
         b, t = ps[0]
+        # NetworkFilter::parse normalises the host of a `||host^` rule itself: lower-case, strip ONE `www.`, then punycode.
+        # A hosts entry equals that rule only if it reaches the parser before those steps: text that was converted (or
+        # trimmed repeatedly) first is normalised a second time, in the other order
+        conv = [(strip_generics(t2["callee"]).split("::")[-1], h.loc(b2)) for b2, t2 in h.calls(r"String::push_str$")
+                if "idna::domain_to_ascii(" in h.expr_operand(t2["args"][1])]
+        run.ob("C11.3.hosts-delegation", "host-converted-by-the-rule-parser-only", not conv,
+               "the host spliced into `||host^` has not been through the punycode conversion already "
+               f"(converted text pushed at {[c_[1] for c_ in conv]})", site=conv[0][1] if conv else h.loc(b), config=cfg,
+               detail="`0.0.0.0 ｗｗｗ.example.com` (full-width www) is converted to `www.example.com` first and then loses the "
+                      "`www.` in NetworkFilter::parse: it blocks example.com, while `||ｗｗｗ.example.com^` blocks www.example.com only")
         pushes = [(strip_generics(t2["callee"]).split("::")[-1], h.expr_operand(t2["args"][1])) for b2, t2 in h.calls(r"String::(push|push_str)$")]
         froms = " ".join(h.expr_call(t2) for b2, t2 in h.calls(r"String::from$|From<&str>>::from$|ToOwned|to_string$|String::push_str$"))
         consts = set(v for k, v in pushes if v.startswith(("'", '"')))
